@@ -29,7 +29,7 @@ def exhaustive(tier):
 
 
 def required(tier):
-    return ["all_32_lane_sets", "gap:1", "chord_as_last_group", "interleave:between", "group_lines:7", "group_lines:1"]
+    return ["all_32_lane_sets", "gap:1", "chord_as_last_group", "interleave:between", "group_lines:7", "group_lines:1", "concurrent_stage"]
 
 
 def shards(tier, seed):
@@ -104,6 +104,7 @@ def run_shard(shard, rec, tier, seed):
         if batch:
             run_batch(rec, batch)
     else:
+        keep = mcheck.Keep()
         for i in range(shard["count"]):
             rng = harness.rng_for(seed, ID, shard["name"], i)
             if shard["kind"] == "stress":
@@ -112,6 +113,7 @@ def run_shard(shard, rec, tier, seed):
                 case = gen.gen_chart(rng, "hostile" if i % 2 else "realistic", n_tracks=rng.choice([1, 2, 3]),
                                      n_groups=rng.choice([1, 2, 5, 30, 120, 400]), pad=i % 3 == 0)
             out, ob, d = mcheck.judge(rec, ("C02",), case)
+            keep.add(case)
             if d is not None and not d.of("C02"):
                 note_classes(rec, case["truth"])
                 for name, body in case["sections"]:
@@ -121,6 +123,8 @@ def run_shard(shard, rec, tier, seed):
                 rec.sample({"text_head": case["text"][:400]})
             if rec.full:
                 break
+        if not rec.full and shard["kind"] == "random":
+            mcheck.threaded_stage(rec, ("C02",), keep.cases)
     harness.finish(rec)
 
 
